@@ -982,3 +982,63 @@ fn wrap(m: &Model, ctx: &mut Ctx) {
     }
     ctx.sample(json!({"pairs": PAIRS}));
 }
+
+
+/// C01.lazyref — a value that cannot be a `const` (an unconstrained INTEGER, a string, ..) is declared as a lazily initialised
+/// static (`pub static I1: LazyLock<I>`). A DEFAULT function that *refers* to such a value by name returns the static, not a
+/// value of the component's type (E0308 in the bindings, no warning). format_default_methods is evaluated on a DEFAULT that is
+/// a reference to a lazily initialised value and on one that refers to a `const`: the former is dereferenced / copied, the
+/// latter returned as it is.
+pub fn lazy_default_refs(m: &Model, ctx: &mut Ctx, rule: &str) {
+    use std::collections::BTreeMap as Map;
+    let Some(f) = anchor_fn(m, ctx, rule, Some("Rasn"), "format_default_methods", None) else { return };
+    let consts = const_resolver(m);
+    let hook = |_: &Evaluator, name: &str, a: &[Val]| -> Option<Result<Val, String>> {
+        match name {
+            "TokenStream::new" => Some(Ok(Val::Str(String::new()))),
+            ".value_to_tokens" => Some(Ok(Val::Ctor("Ok".into(), vec![Val::Sym(match a.get(1) { Some(Val::Ctor(_, _, f)) => match f.get("identifier") { Some(Val::Str(s)) => s.to_uppercase(), _ => "VAL".into() }, _ => "VAL".into() })], Map::new()))),
+            ".type_to_tokens" => Some(Ok(Val::Ctor("Ok".into(), vec![Val::Sym("TY".into())], Map::new()))),
+            ".to_rust_title_case" => Some(Ok(Val::Sym("Ty".into()))),
+            ".default_method_name" => Some(Ok(Val::Sym(format!("dflt_{}", a.get(2).map(|v| v.show()).unwrap_or_default().trim_matches('"'))))),
+            ".default" if a.len() == 1 => Some(Ok(match &a[0] { Val::Ctor(n, p, _) if n == "Default" => Val::some(p.first().cloned().unwrap_or(Val::Unit)), _ => Val::none() })),
+            _ => None,
+        }
+    };
+    let ev = Evaluator { consts: &consts, call_hook: &hook, inline: None };
+    let params: Vec<String> = f.sig.inputs.iter().filter_map(|a| match a { syn::FnArg::Typed(t) => Some(tok(&t.pat)), _ => None }).collect();
+    let reference = |id: &str, can_be_const: bool| {
+        let mut fm = Map::new();
+        fm.insert("parent".to_string(), Val::none());
+        fm.insert("identifier".to_string(), Val::Str(id.into()));
+        fm.insert("can_be_const".to_string(), Val::Bool(can_be_const));
+        Val::Ctor("LinkedElsewhereDefinedValue".into(), vec![], fm)
+    };
+    let mem = |n: &str, v: Val| {
+        let mut me = Map::new();
+        me.insert("name".to_string(), Val::Str(n.into()));
+        me.insert("optionality".to_string(), Val::Ctor("Default".into(), vec![v], Map::new()));
+        me.insert("ty".to_string(), Val::Ctor("ElsewhereDeclaredType".into(), vec![Val::Opaque("reference".into())], Map::new()));
+        Val::Ctor("SequenceOrSetMember".into(), vec![], me)
+    };
+    for (id, can_be_const) in [("lazy", false), ("konst", true)] {
+        ctx.oblige(rule, &format!("default-refers-to:{}", id), true);
+        let mut env = Env::new();
+        env.insert("self".into(), Val::ctor("Rasn"));
+        env.insert(params.first().cloned().unwrap_or("members".into()), Val::List(vec![mem("m", reference(id, can_be_const))]));
+        env.insert(params.get(1).cloned().unwrap_or("parent_name".into()), Val::Str("Parent".into()));
+        match ev.eval_fn_body(&f.block, &mut env) {
+            Ok(Val::Ctor(ok, p, _)) if ok == "Ok" => {
+                let out = p.first().map(|v| match v { Val::Str(s) | Val::Sym(s) => s.replace(' ', ""), o => o.show() }).unwrap_or_default();
+                let body = out.split_once('{').map(|x| x.1.trim_end_matches('}').to_string()).unwrap_or_default();
+                let bare = body == id.to_uppercase();
+                if !can_be_const && bare {
+                    ctx.violate(rule, "default-returns-the-static", &f.file, f.line, &format!("the DEFAULT function of a component whose DEFAULT refers to a value that is no `const` is `{}`: the name denotes a `LazyLock<T>` static, the function returns `T` — mismatched types in the bindings, without a warning (`I ::= INTEGER  i1 I ::= 5  Sq ::= SEQUENCE {{ m I DEFAULT i1 }}`)", out));
+                } else if can_be_const && !bare {
+                    ctx.violate(rule, "default-of-const-rewritten", &f.file, f.line, &format!("the DEFAULT function of a component whose DEFAULT refers to a `const` is `{}`; expected the constant as it is", out));
+                }
+            }
+            Ok(o) => ctx.fail_closed(rule, &format!("[format_default_methods, DEFAULT {}]: {}", id, o.show().chars().take(120).collect::<String>())),
+            Err(e) => ctx.fail_closed(rule, &format!("[format_default_methods, DEFAULT {}]: {}", id, e)),
+        }
+    }
+}
